@@ -296,6 +296,13 @@ func c03Gen(t *rapid.T) c03Case {
 				ifi.Order = append(ifi.Order, 4)
 			},
 			func() {
+				if len(ifi.DNSSL) > 0 && g.chance("h:dotted", 1, 4) {
+					d := &ifi.DNSSL[rapid.IntRange(0, len(ifi.DNSSL)-1).Draw(t, "dottedwhich")]
+					pos := rapid.IntRange(0, len(d.Domains)).Draw(t, "dottedpos")
+					d.Domains = slices.Insert(slices.Clone(d.Domains), pos, rapid.SampledFrom([]string{"example.org.", "lan.", "home.arpa."}).Draw(t, "dottedname"))
+				}
+			},
+			func() {
 				if len(ifi.RDNSS) > 0 && g.chance("h:zoned", 1, 4) {
 					r := &ifi.RDNSS[rapid.IntRange(0, len(ifi.RDNSS)-1).Draw(t, "zonedwhich")]
 					r.Servers = append(slices.Clone(r.Servers), dAddr{Text: rapid.SampledFrom([]string{"fe80::53%eth0", "fe80::1%eth0", "2001:db8::53%1", "::%eth0"}).Draw(t, "zonedserver"), Kind: "zoned"})
@@ -441,7 +448,9 @@ func c03Sweep(yield func(c03Case) bool) {
 			return
 		}
 	}
-	for _, names := range [][]string{{""}, {"a", ""}, {strings.Repeat("a", 63) + ".example"}, {"lan", "example.com", "a.b.c.d.e.f.g"}} {
+	for _, names := range [][]string{{""}, {"a", ""}, {strings.Repeat("a", 63) + ".example"}, {"lan", "example.com", "a.b.c.d.e.f.g"},
+		// names in their absolute form and other empty labels (finding F24)
+		{"lan.", "example.com", "corp.example.net"}, {"example.com", "lan.", "corp.example.net"}, {"example.com."}, {"example.com.", "example.com"}, {"a..b", "lan"}, {".lan", "x"}} {
 		ifi := dIface{Name: &eth, Advertise: &tr, DNSSL: []dDNSSL{{HasKey: true, Domains: names}}}
 		if !yield(c03Case{Doc: dDoc{Interfaces: []dIface{ifi}}, State: st}) {
 			return
